@@ -301,3 +301,27 @@ def run(chk: Check, eng: Engine) -> None:
                 "state of the previous spec leaks into the next one on the C++ side only", keyparts="cpp-reset|" + ",".join(miss))
     else:
         chk.ok("R14-c", "FandangoLexerBase::reset (cpp)", 0, f"C++ reset() re-initialises {sorted(cpp_written)}")
+
+
+# ------------------------------------------------------------------ self-test variants
+from ..mutants import M  # noqa: E402
+
+_PYB = "src/fandango/language/parser/FandangoLexerBase.py"
+_CPB = "src/fandango/language/cpp_parser/FandangoLexerBase.cpp"
+_CPH = "src/fandango/language/cpp_parser/FandangoLexerBase.h"
+_TOK = "src/fandango/language/cpp_parser/FandangoParser.tokens"
+_LG4 = "language/FandangoLexer.g4"
+MUTANTS = [
+    M("cpp-tokens-stale", _TOK, "INDENT=1\nDEDENT=2\n", "INDENT=1\nDEDENT=2\nEXTRA_TOKEN=999\n", "R14-a"),
+    M("grammar-rule-added-not-regenerated", "language/FandangoParser.g4", "kleene: symbol STAR;\n", "kleene: symbol STAR;\nkleene2: symbol STAR STAR;\n", "R14-a"),
+    M("python-hook-renamed", _PYB, "def python_end() -> None:", "def python_stop() -> None:", "R14-b"),
+    M("cpp-macro-missing", _CPH, "#define is_not_fstring() FandangoLexerBase::lexer->_is_not_fstring();", "", "R14-b"),
+    M("new-g4-hook-only-in-python", _LG4, "{ python_end(); }", "{ python_end(); filepath_end(); }", "R14-b"),
+    M("python-close-brace-differs", _PYB, "    def close_brace(self) -> None:\n        self.opened -= 1\n", "    def close_brace(self) -> None:\n        self.opened = 0\n", "R14-c"),
+    M("cpp-python-end-decrements", _CPB, "void FandangoLexerBase::_python_end() {\n    inPython = 0;\n}", "void FandangoLexerBase::_python_end() {\n    inPython--;\n}", "R14-c"),
+    M("python-reset-forgets-in-python", _PYB, "        self.opened = 0\n        self.in_python = 0\n        self.in_fstring = False\n        self.in_filepath = 0\n        super().reset()", "        self.opened = 0\n        self.in_fstring = False\n        self.in_filepath = 0\n        super().reset()", "R14-c"),
+]
+TWINS = [
+    M("twin-python-docstring", _PYB, "    def open_brace(self) -> None:\n        self.opened += 1\n", "    def open_brace(self) -> None:\n        \"\"\"count an opening brace\"\"\"\n        self.opened += 1\n", None),
+    M("twin-cpp-comment", _CPB, "void FandangoLexerBase::_open_brace() {\n    opened++;\n}", "void FandangoLexerBase::_open_brace() {\n    // one more\n    opened++;\n}", None),
+]
